@@ -876,8 +876,12 @@ def execute(plan):
                     if len(kept) < 6:
                         kept.append((i, res[1], res[1].copy()))
                 if op.get("eio"):
-                    if res[0] == "ok":
-                        viol("eio-swallowed", i, "codev" if entry["fmt"] == "codev" else "zygo", "none")
+                    # a read error was injected (once).  The reader may fail, or say loudly that what it
+                    # returns is partial; if it returns quietly - because it recovered, e.g. a failed probe of
+                    # the file signature followed by an ordinary read - the result is judged like any other
+                    # read of this file: never wrong data in silence
+                    if res[0] == "ok" and not res[4]:
+                        _judge(w, entry, spans, cur_len, res, i, viol, bump, probes)
                 else:
                     _judge(w, entry, spans, cur_len, res, i, viol, bump, probes)
                     nontrivial = True
